@@ -486,7 +486,7 @@ func (w *c04World) taskLine(s c04Snap, qn int) string {
 // arrived waits until the queue has grown and declares the new tail task to the model with the
 // attributes the generated hook configuration prescribes.
 func (w *c04World) arrived(h c04Hook, before int, af bool, group int, bt int, bname string, ctxType int) bool {
-	deadline := time.Now().Add(10 * time.Second)
+	deadline := time.Now().Add(30 * time.Second)
 	for w.queueLen(h.Queue) <= before {
 		if time.Now().After(deadline) {
 			w.c.Op(fmt.Sprintf("task 999 q=%d hook=%d", h.Queue, h.Num), "event-not-queued")
@@ -541,7 +541,7 @@ func (w *c04World) begin(qn int) string {
 	ech, rch := w.entries[qname], w.rets[qname]
 	w.mu.Unlock()
 	var ent c04Entry
-	deadline := time.Now().Add(15 * time.Second)
+	deadline := time.Now().Add(40 * time.Second)
 	for got := false; !got; {
 		select {
 		case ent = <-ech:
@@ -663,7 +663,7 @@ func (w *c04World) end(qn int, mode string) string {
 		}
 		select {
 		case ret = <-rch:
-		case <-time.After(20 * time.Second):
+		case <-time.After(40 * time.Second):
 			w.c.Op(fmt.Sprintf("end q=%d ok=%d", qn, b01(mode == "ok")), "hang")
 			return "hang"
 		}
@@ -677,7 +677,7 @@ func (w *c04World) end(qn int, mode string) string {
 	if ret.status == queue.Fail {
 		status = "fail"
 		// the worker calls ExponentialBackoffFn and IncrementFailureCount right after the handler
-		for i := 0; i < 400; i++ {
+		for i := 0; i < 2000; i++ {
 			w.mu.Lock()
 			got := len(w.boCalls[qname]) > nbo
 			if got {
@@ -996,7 +996,7 @@ func c04SyncWitness(c *Case, r *Run) {
 
 func runC04(r *Run) {
 	r.Rule = "part 1: the real CalculateDelay (8 initial delays x retry counts 0..40, repeated) and the queue's default ExponentialBackoffFn: every observed delay must be a member of the model's set {calcDelay k r | r < 1000}; oracle: initial <= delay <= 32s. part 2: the real operator (NewShellOperator + real metric storages + kube-client/fake + real hook manager, kube events manager, events handler and queues) with 1..3 generated bash hooks (onStartup, 1..3 schedule bindings, in 60% of the cases 1..3 kubernetes bindings on ConfigMaps, each with allowFailure/group, kubernetes ones with executeHookOnSynchronization; queue main or q1) whose every execution blocks at a gate until the harness lets it finish as scripted (ok / exit 1 / unparsable metrics file / unparsable patch file / metric operation that fails validation / patch operation that cannot be applied); startup runs onStartup and Synchronization tasks; then schedule events are fired through ScheduleManager.Ch() and kubernetes events by creating objects in the fake cluster while a run is blocked, so queue layouts of 1..6 tasks (+ up to 4 arriving during runs) with mixed allowFailure values are in the queue when the head is handled; back-off shortened through ExponentialBackoffFn (15..30 ms + 5 ms*failureCount, or the real CalculateDelay for the first failure). Observation per run (taken inside a wrapper of the queue's Handler field and from the hook): queue at handler entry, contexts in the hook's context file, queue at handler return, failure counter, back-off returned, time from the back-off call to the next handler entry. Non-trivial: >= 2 tasks in the layouts. distinct = distinct op-line sequences."
-	r.CaseTimeout = 120 * time.Second
+	r.CaseTimeout = 300 * time.Second
 	r.One(0, func(c *Case, _ *Rng) { c04Delays(c, r) })
 	r.One(1, func(c *Case, _ *Rng) {
 		c.Desc = "corpus (DESIGN §9 row 4): head allowFailure:true + follower of the same hook allowFailure:false, hook fails twice"
